@@ -69,7 +69,7 @@ func HarnessC10Small() {
 	bi := verifrt.Choice("base", 4)
 	lens := [][]int{{1, 3, 5}, {2, 4}, {3}, {8}}[bi]
 	if verifrt.Thorough() {
-		lens = [][]int{{1, 3, 5, 7, 10}, {2, 4, 8}, {3, 6, 11}, {8, 16, 32}}[bi]
+		lens = [][]int{{1, 2, 3, 4, 5, 6}, {2, 3, 4, 5}, {3, 4, 5}, {8, 9, 10}}[bi]
 	}
 	n := lens[verifrt.Choice("n", len(lens))]
 	s, dv, neg := zzLiteral(bi, n, true)
